@@ -22,6 +22,7 @@ func init() {
 			"C12.zero: every comparison against the exported limit MaxObjectKeys is conjoined with a `!= 0` test (0 disables, as at the five MaxInputLength sites). " +
 			"C12.count: in the key loop every path from a member read to the success exit passes a limit comparison that covers that read (order independence of the verdict). " +
 			"C12.keys: lower-cased key switch against lower-case constants equal to the marshal keys; duplicate tests precede decoding and return the matching ErrDuplicated*; newOrError maps nil to ErrMissingValueKey/ErrMissingUnitKey; decodeValue/decodeUnit accept exactly json.Number/string; the default arm returns ErrUnexpectedKey iff RuleDisallowUnknownKeys else skips nested values with a depth counter. " +
+			"C12.all: the member loop is left for the success path only on the edge where More() reports no member left (otherwise later duplicates, unknown keys and the member count go unexamined and the verdict depends on member order). " +
 			"S-WRAP: sentinels bound to %w; errors of the object reader re-wrapped by newParseError.",
 		NotDecided:  []string{"encoding/json tokenisation itself", "numeric equality of results (C08)", "behaviour for inputs longer than MaxInputLength (C18)"},
 		Assumptions: []string{"json.Decoder.Token/More contracts; Token returns io.EOF at end of input and a syntax error for a malformed continuation"},
